@@ -69,12 +69,15 @@ profile('id-reuse', PH.gen_id_reuse)
 
 profile('peer-script', PP.gen_peer_script)
 
+profile('frag-grid', P.gen_frag_grid, grid=True)
+
 # property -> {'profiles': [(name, quick_runs, thorough_runs)], 'oracles': [...]}
 CHECKS = {
     'C01': {'profiles': [('core', 3000, 120000), ('core-msg', 1000, 40000), ('core-frag', 1500, 60000),
                          ('core-stall', 1500, 60000), ('core-await', 1000, 40000)],
             'oracles': [O.oracle_c01], 'level': 'exploration'},
-    'C03': {'profiles': [('core-frag', 3000, 120000), ('core-stall', 1500, 60000), ('core-msg', 1000, 40000)],
+    'C03': {'profiles': [('core-frag', 2500, 100000), ('core-stall', 1000, 40000), ('core-msg', 500, 20000),
+                         ('frag-grid', 4000, 'grid')],
             'oracles': [O.oracle_c03], 'level': 'exploration'},
     'C04': {'profiles': [('parser', 20000, 600000)], 'oracles': [XP.oracle_c04], 'level': 'exploration'},
     'C05': {'profiles': [('core-stall', 3500, 140000), ('core-frag', 1500, 60000), ('core', 1000, 40000),
@@ -120,9 +123,19 @@ def oracles_for(prop, plan):
     return o
 
 
+def grid_total():
+    return sum(P.frag_grid_size(F) for F in P.FRAG_GRID_F) * 2
+
+
 def make_plan(prop, profile_name, base_seed, index, extra=None):
     gen, opts = PROFILES[profile_name]
     seed = P.run_seed(base_seed, prop, profile_name, index)
+    if opts.get('grid'):
+        o = dict(opts, grid_index=index, grid_stride=(extra or {}).get('grid_stride', 1))
+        plan = gen(seed, o)
+        plan['_id'] = {'property': prop, 'profile': profile_name, 'base_seed': base_seed, 'index': index,
+                       'grid_stride': o['grid_stride']}
+        return plan
     plan = gen(seed, opts)
     plan['_id'] = {'property': prop, 'profile': profile_name, 'base_seed': base_seed, 'index': index}
     if extra:
@@ -188,7 +201,16 @@ def jobs_for(prop, tier):
     jobs = []
     for name, quick, thorough in CHECKS[prop]['profiles']:
         n = quick if tier == 'quick' else thorough
-        jobs.extend((name, i, None) for i in range(n))
+        if n == 'grid':
+            jobs.extend((name, i, None) for i in range(grid_total()))  # the whole window, every point once
+        elif PROFILES[name][1].get('grid'):
+            # a stride through the grid that is co-prime with its period so that all (F, framing) strata are hit
+            stride = max(1, grid_total() // n)
+            while stride > 1 and grid_total() % stride == 0:
+                stride += 1
+            jobs.extend((name, i, {'grid_stride': stride}) for i in range(n))
+        else:
+            jobs.extend((name, i, None) for i in range(n))
     return jobs
 
 REAL_DEFAULT = ['rsocket.rsocket_client.RSocketClient', 'rsocket.rsocket_server.RSocketServer', 'rsocket.rsocket_base',
